@@ -493,12 +493,18 @@ Definition guard_not_awaiting (d : N) (s : gstate) : step_result :=
 (* Awaiting.found_cycles_stack.append([]) *)
 Definition push_cycles_frame (s : gstate) : step_result :=
   SOk (mk_gstate (depth s) (awaiting s) (flags s) (handlers s) (nry s) (kc s) ([] :: fcs s)).
-(* for key in Awaiting.found_cycles_stack.pop(): Awaiting.known_cycles.pop(key, None) *)
-Definition pop_cycles_frame (s : gstate) : step_result :=
+(* found = Awaiting.found_cycles_stack.pop()
+   if exc_type is DeferredCycle and Awaiting.found_cycles_stack: Awaiting.found_cycles_stack[-1].extend(found)
+   else: for key in found: Awaiting.known_cycles.pop(key, None) *)
+Definition pop_cycles_frame (exc : option exn) (s : gstate) : step_result :=
   match fcs s with
   | [] => SRaise EIndex s
-  | l :: r => SOk (mk_gstate (depth s) (awaiting s) (flags s) (handlers s) (nry s)
+  | l :: r =>
+      match (if exc_is exc EDeferredCycle then r else []) with
+      | parent :: r' => SOk (mk_gstate (depth s) (awaiting s) (flags s) (handlers s) (nry s) (kc s) ((parent ++ l)%list :: r'))
+      | [] => SOk (mk_gstate (depth s) (awaiting s) (flags s) (handlers s) (nry s)
                              (filter (fun k => negb (existsb (N.eqb k) l)) (kc s)) r)
+      end
   end.
 (* remember_cycle(d): if found_cycles_stack and id(d) not in known_cycles: known_cycles[id(d)] = d; found_cycles_stack[-1].append(id(d)) *)
 Definition remember_cycle (d : N) (s : gstate) : gstate :=
@@ -602,7 +608,9 @@ def gen_gstate():
     dump_eq(find_def(aw, "__init__"), "def __init__(self, deferred):\n    self.deferred = deferred", "Awaiting.__init__")
     table = [("if self.deferred.is_awaiting or id(self.deferred) in Awaiting.known_cycles:\n    raise DeferredCycle()", "guard_not_awaiting d"),
              ("Awaiting.found_cycles_stack.append([])", "push_cycles_frame"),
-             ("for key in Awaiting.found_cycles_stack.pop():\n    Awaiting.known_cycles.pop(key, None)", "pop_cycles_frame"),
+             ("found = Awaiting.found_cycles_stack.pop()", ""),
+             ("if exc_type is DeferredCycle and Awaiting.found_cycles_stack:\n    Awaiting.found_cycles_stack[-1].extend(found)\nelse:\n    for key in found:\n        Awaiting.known_cycles.pop(key, None)",
+              "pop_cycles_frame exc"),
              ("self.deferred.is_awaiting = True", "set_flag d true"),
              ("self.deferred.is_awaiting = False", "set_flag d false"),
              ("Awaiting.awaiting_stack.append(self.deferred)", "push_awaiting d"),
@@ -614,8 +622,12 @@ def gen_gstate():
     out += f"\n(* Awaiting.__enter__ ([d] identifies self.deferred) *)\nDefinition await_enter (d : N) (s : gstate) : step_result :=\n  {compose(effs)}.\n"
     ex = find_def(aw, "__exit__")
     need(not any(isinstance(n, ast.Return) for n in ast.walk(ex)), "Awaiting.__exit__ returns a value (it must return None = never swallow)")
-    effs = effects_of(ex.body, table[:7], "Awaiting.__exit__")
-    out += f"\n(* Awaiting.__exit__: returns None, i.e. never swallows *)\nDefinition await_exit (d : N) (s : gstate) : step_result :=\n  {compose(effs)}.\n"
+    effs = effects_of(ex.body, table[:8], "Awaiting.__exit__")
+    xs = [src(x) for x in ex.body]
+    need("found = Awaiting.found_cycles_stack.pop()" in xs and xs.index("found = Awaiting.found_cycles_stack.pop()") == len(xs) - 2,
+         "Awaiting.__exit__: the frame pop is not immediately followed by the transfer/forget statement at the end")
+    need([a.arg for a in ex.args.args] == ["self", "exc_type", "exc_value", "exc_tb"], "Awaiting.__exit__ signature")
+    out += f"\n(* Awaiting.__exit__: returns None, i.e. never swallows *)\nDefinition await_exit (d : N) (exc : option exn) (s : gstate) : step_result :=\n  {compose(effs)}.\n"
     dump_eq(find_def(dtree, "remember_cycle"), """
 def remember_cycle(deferred):
     if Awaiting.found_cycles_stack and isinstance(deferred, BaseDeferred) and id(deferred) not in Awaiting.known_cycles:
@@ -630,13 +642,17 @@ def remember_cycle(deferred):
 def wait(self):
     if try_compute.depth > 0 and id(self) in try_compute.not_ready_yet:
         raise NotReadyError()
-    with Awaiting(self):
-        try:
-            return self._wait()
-        except NotReadyError:
-            if try_compute.depth > 0:
-                try_compute.not_ready_yet[id(self)] = self
-            raise
+    try:
+        with Awaiting(self):
+            try:
+                return self._wait()
+            except NotReadyError:
+                if try_compute.depth > 0:
+                    try_compute.not_ready_yet[id(self)] = self
+                raise
+    except DeferredCycle:
+        remember_cycle(self)
+        raise
 """, "BaseDeferred.wait (prelude: wait_blocked / wait_record)")
 
     # ---- handle_reports (stack part)
@@ -699,6 +715,7 @@ STATE_WRITERS = {
     ("deferred", "Awaiting.__enter__", "Awaiting.found_cycles_stack.append([])"),
     ("deferred", "Awaiting.__exit__", "Awaiting.found_cycles_stack.pop()"),
     ("deferred", "Awaiting.__exit__", "Awaiting.known_cycles.pop(key, None)"),
+    ("deferred", "Awaiting.__exit__", "Awaiting.found_cycles_stack[-1].extend(found)"),
     ("deferred", "remember_cycle", "Awaiting.known_cycles[id(deferred)] = deferred"),
     ("deferred", "remember_cycle", "Awaiting.found_cycles_stack[-1].append(id(deferred))"),
     ("reports", "handle_reports.__enter__", "self.handlers_stack.append(self)"),
